@@ -10,7 +10,7 @@ from vlib import core
 from harness import c10_gen, c10_check, c10_model, ops_common as oc
 
 PROP = 'C10'
-MODEL_MODULES = ['TenpyModel.Util.J', 'TenpyModel.Ops.Sym', 'TenpyModel.Ops.Terms', 'TenpyModel.Ops.Graph',
+MODEL_MODULES = ['TenpyModel.Util.J', 'TenpyModel.Ops.Sym', 'TenpyModel.Ops.Terms', 'TenpyModel.Ops.Graph', 'TenpyModel.Ops.GraphSpec',
                  'TenpyModel.Ops.Bond', 'TenpyModel.Ops.Model', 'TenpyModel.Ops.Dense']
 PROPS_MODULES = ['TenpyModel.C10.Props']
 LEAN_MODULES = ['TenpyModel.C10.Props']
@@ -191,7 +191,7 @@ def run_cases(ctx, cases, use_model=True, res=None):
             for h in (case_hist(case) if case.get('kind', 'coupling') == 'coupling' else ['zoo=' + case.get('model', '?')]):
                 res.count(h)
             for k, v in rec['facts'].items():
-                if k.startswith('rep.') or k in ('lean_dense', 'bonds', 'herm_formal', 'herm_oracle'):
+                if k.startswith('rep.') or k in ('lean_dense', 'bonds', 'herm_formal', 'herm_oracle', 'spec_ok'):
                     if v:
                         res.count(k)
             if use_model:
